@@ -149,7 +149,7 @@ def validate(ctx, items, which=None):
             continue
         o = r["obs"]
         if o["snerr"] > 0:
-            if not str(it["id"]).startswith("fix"):     # a fixture may use syntax of a plugin (===): not in the subset
+            if not str(it["id"]).startswith(("fix", "opt")):     # a fixture may use syntax of a plugin (===): not in the subset; "opt": see build_items
                 fails.append((it, "decorated_program_rejected", dict(err0=o.get("serr0"))))
             continue
         if any(x.get("panic") for x in o["outs"]):
@@ -213,14 +213,17 @@ def build_items(ctx, quick):
         seen.add(text)
         plain = spell(e["toks"], decorated=False)
         items.append(dict(id="m%d" % n, text=text, plain=plain, mouts=e.get("mouts") or None,
-                          decorated=any(k.get("pre") for k in e["toks"]), inner=bool(e.get("inner")),
+                          decorated=any(k.get("pre") for k in e["toks"]), inner=bool(e.get("inner")), triple=bool(e.get("triple")),
                           gcomments=None if e.get("inner") else gen_comments(e["toks"])))
     und = [i for i in items if not i["decorated"]]
-    dec = [i for i in items if i["decorated"] and not i["inner"]]
+    dec = [i for i in items if i["decorated"] and not i["inner"] and not i["triple"]]
+    tri = [i for i in items if i["triple"]]
+    ctx.rng.shuffle(tri)
+    tri = tri[:450 if quick else 5000]
     inner = [i for i in items if i["inner"]]
     ctx.rng.shuffle(dec)
     ctx.rng.shuffle(inner)
-    cap = 3800 if quick else 50000
+    cap = 3500 if quick else 50000
     icap = 1400 if quick else 25000
     ctx.cov["inner_decorated_programs"] = dict(enumerated=len(inner), compiled=min(len(inner), icap))
     from props import scale
@@ -248,8 +251,14 @@ def build_items(ctx, quick):
     empties = [dict(id="empty:%d" % n, text=t, plain=None, mouts=None, decorated=True, inner=False, gcomments=g)
                for n, (t, g) in enumerate([("a\n//\nb", [""]), ("//\n// x\n//\nlet y = 1\n", ["", " x", ""]),
                                            ("function f() {\n  a //\n}", [""])])]
-    und = und + empties
-    return huge[:1] + und + fixture_items() + big + dec[:cap] + inner[:icap], len(und) + len(huge[:1]), len(dec) + len(inner)
+    # statement forms this parser does not accept today (empty statements): judged only if a tree under
+    # test accepts them - a comment in front of an empty statement is a comment in a statement list
+    optional = [dict(id="opt:%d" % n, text=t, plain=None, mouts=None, decorated=True, inner=False, gcomments=g)
+                for n, (t, g) in enumerate([("a;\n// c\n;\nb", [" c"]), ("a; // t\n;\nb", [" t"]),
+                                            ("function f() {};\n// note\n;(function(){})()", [" note"]),
+                                            ("{\n  a\n  // in\n  ;\n}", [" in"]), ("// first\n;\na", [" first"])])]
+    und = und + empties + optional
+    return huge[:1] + und + fixture_items() + big + tri + dec[:cap] + inner[:icap], len(und) + len(huge[:1]), len(dec) + len(inner) + len(tri)
 
 
 def run(ctx, which=None):
